@@ -137,6 +137,7 @@ def check_c15(rep):
     l2_exhaustive(rep, "close at any point of a stalled connection", dict(MaxMsg=2, MaxEnv=5 if q else 6, Stalls="TRUE"), "KindsOk", "PolIdem")
     if not q:
         l2_sensitivity(rep, "F_CLOSE", dict(MaxMsg=1, MaxEnv=5), "KindsOk", "PolIdem", "ClosedIsFinal")
+        l2_sensitivity(rep, "F_REOPEN", dict(MaxMsg=1, MaxEnv=4), "KindsOk", "PolIdem", "NoGiveUp")
     l2_replay(rep, 1000 if q else 15000)
     run_generated(rep, "random close/reopen scripts", PS.gen_scripts("close", 500 if q else 8000, lib.seed() + 5))
     sa = [(f"shut-{p}-{s}", p, *G.shutdown_at(s, p)) for i, s in enumerate(seeds(500 if q else 6000, 3))
